@@ -363,7 +363,7 @@ pub fn run(ctx: &Ctx) {
     });
 
     // ---- (c) random members and their one-edit neighbours
-    let cases = ctx.tier.pick(60_000u64, 3_000_000u64);
+    let cases = ctx.tier.pick(600_000u64, 6_000_000u64);
     let npat = pats.len();
     let strat = (0..npat, proptest::collection::vec(any::<u32>(), 0..400), any::<u32>());
     run_prop(ctx, "members", cases, strat, |(pi, tape, r), st| {
